@@ -347,6 +347,45 @@ def restartOk (c : Cfg) : Bool :=
   evs.any (fun e => e.src == 2 && e.isResp && e.delivered 1) &&
   mutualDyn (scriptRestart c)
 
+/-! ## the introducer is the tracker service; a peer limit at the introduced peer; the stock RandomWalk strategy -/
+
+def setNode (w : World) (i : Nat) (f : Node → Node) : World :=
+  match w.nodes[i]? with
+  | some n => { w with nodes := w.nodes.set i (f n) }
+  | none => w
+
+/-- host 0 runs scripts/tracker_service.py's EndpointServer (old-style requests of any prefix) -/
+def prehistoryTracker (c : Cfg) : World :=
+  prehistoryOn c 0 (setNode (setPref (world0 c) 0 [2]) 0 (fun n => { n with isTracker := true }))
+
+/-- P also runs overlay 1 and has a peer there (X); its max_peers equals the number of its overlay-0 peers (one: the
+    introducer): overlay 0 is AT its limit, the Network as a whole holds more -/
+def prePeerLimit (c : Cfg) : World :=
+  let w := prehistoryOn c 0 (setPref ((world0 c).addHost hostX) 0 [2])
+  setNode (w.walk 2 addrX 1) 2 (fun n => { n with maxPeers := 1 })
+
+/-- one RandomWalk step of node i with `choice` = the first available address -/
+def rwAuto (w : World) (i s now : Nat) : World :=
+  match w.rwStep i s now none with
+  | some w' => w'
+  | none =>
+    match w.nodes[i]? with
+    | none => w
+    | some n => ((n.walkable s).findSome? (fun a => w.rwStep i s now (some a))).getD w
+
+/-- the contact attempt made by the stock strategy: two steps one second apart (both handed-out addresses are probed
+    before any answer is evaluated by the strategy), then steps after the 3 s node timeout has passed -/
+def scriptStrategy (c : Cfg) : World :=
+  let w := introduce c (prehistory c)
+  rwAuto (rwAuto (rwAuto (rwAuto w 1 0 100) 1 0 101) 1 0 105) 1 0 106
+
+def strategyOk (c : Cfg) : Bool :=
+  let w := introduce c (prehistory c)
+  let w2 := rwAuto (rwAuto w 1 0 100) 1 0 101
+  (w2.nodes[1]?.map (fun n => !n.timeouts.isEmpty)) == some true &&
+  ((scriptStrategy c).nodes[1]?.map (fun n => n.timeouts.all (fun t => 104 < t.2.2))) == some true &&
+  mutualDyn (scriptStrategy c)
+
 /-! ## more candidates at the introducer -/
 
 /-- further candidates (hosts 3..6): public full-cone, port-restricted behind box 1 (R's box whenever R is boxed),
